@@ -48,6 +48,9 @@ def declare(spec):
     Mk = spec.klass(M + 'ResourceMap', 'Map', fields=dict(
         maps=TDict(Str, Map), handles=CHAIN, parent=Map, key=Str))
     spec.klass(None, 'Res')
+    # Handle is made to be subclassed: a subclass may define __len__/__bool__, so the truth
+    # value of a handle is an uninterpreted predicate (None is falsy), like that of a resource
+    Hk.default_truthiness = False
     T.declare_class_of('Handle', M + 'Handle')
     T.declare_class_of('Map', M + 'ResourceMap')
 
@@ -267,7 +270,8 @@ def register_map(spec):
                   'chain_has(T.handles, last) and chain_get(T.handles, last) == value')
         other_kind = ('all(not (0 <= j and j < len(T.handles.maps) and layer_has(T.handles, j, last)) '
                       'for j in Int)' if variant == 'map' else 'not (last in T.maps)')
-        C(q + '__setitem__#' + variant, params=dict(P, key=Str, value=VT), props=['C11'],
+        # C12: storing (or replacing) a node never touches the cache of any handle (frame)
+        C(q + '__setitem__#' + variant, params=dict(P, key=Str, value=VT), props=['C11', 'C12'],
           requires=[ALLOK, 'key != None', 'value != None and value.parent == None and allocated(value)'] +
                    (['value != self'] if variant == 'map' else
                     ['all(not (0 <= j and j < len(mm.handles.maps) and layer_has(mm.handles, j, k) and '
@@ -315,7 +319,7 @@ def register_map(spec):
               havoc=['Map.handles'])
 
     # ---- clear: nothing reachable, former direct children detached
-    C(q + 'clear', params=P, props=['C11'], requires=[ALLOK, 'self.parent != self'],
+    C(q + 'clear', params=P, props=['C11', 'C12'], requires=[ALLOK, 'self.parent != self'],
       modifies=['Map.parent', 'Map.key', 'Handle.parent', 'Handle.key', 'self.maps', 'self.handles'],
       ensures={
           'every-node-records-its-container': (ALLOK, 'prop'),
